@@ -213,6 +213,28 @@ class Gen:
             s.fail("non-pointer bitcast %s -> %s" % (ft.key(), tt.key()))
         s.fail(op)
 
+    def fill_literal(s, t, byte):
+        """C expression of type t whose every byte is `byte` (typed equivalent of memset(p, byte, sizeof t))"""
+        rt = s.resolve(t)
+        if isinstance(rt, TInt):
+            n = max(1, rt.n // 8); v = int.from_bytes(bytes([byte]) * n, 'little')
+            return '((%s)%dU%s)' % (s.ct(rt), v, 'L' if n > 4 else '')
+        if isinstance(rt, TPtr):
+            return '((%s)%dUL)' % (s.ct(t), int.from_bytes(bytes([byte]) * 8, 'little'))
+        if isinstance(rt, TFloat) and rt.k == 'double':
+            return '(%s)' % struct.unpack('<d', bytes([byte]) * 8)[0].hex()
+        if isinstance(rt, TStruct):
+            els = [s.fill_literal(e, byte) for e in rt.els]
+            if any(e is None for e in els): return None
+            els = [e[1 + len(s.ct(x)) + 1:] if isinstance(s.resolve(x), (TStruct, TArr)) else e for e, x in zip(els, rt.els)]
+            return '(%s){%s}' % (s.ct(t), ', '.join(els))
+        if isinstance(rt, TArr):
+            e = s.fill_literal(rt.el, byte)
+            if e is None: return None
+            if isinstance(s.resolve(rt.el), (TStruct, TArr)): e = e[1 + len(s.ct(rt.el)) + 1:]
+            return '(%s){{%s}}' % (s.ct(t), ', '.join([e] * rt.n))
+        return None
+
     def helper(s, T_):
         if T_ not in s.helpers: s.helpers[T_] = 'K%d' % len(s.helpers)
         return s.helpers[T_]
@@ -439,6 +461,11 @@ static void vf_move_%(k)s(%(T)s* d, %(T)s* s, u64 n) { memmove(d, s, n * sizeof(
                 if et is not None and base == 'memset' and isinstance(a1, CInt) and a1.v == 0:
                     T_ = s.ct(et); k = s.helper(T_)
                     return 'vf_zero_%s((%s*)%s, %s / sizeof(%s));' % (k, T_, args[0], args[2], T_)
+                if et is not None and base == 'memset' and isinstance(a1, CInt) and a1.v != 0 and isinstance(I.args[2][1], CInt) \
+                   and I.args[2][1].v == s.m.sizeof(et):
+                    lit = s.fill_literal(et, a1.v & 0xff)
+                    if lit is not None:
+                        return '*((%s*)%s) = %s;' % (s.ct(et), args[0], lit)
                 if et is not None and base != 'memset' and isinstance(a1, Local) and a1.name in s.castsrc \
                    and s.castsrc[a1.name].key() == et.key():
                     T_ = s.ct(et); k = s.helper(T_)
